@@ -21,7 +21,7 @@
     A goroutine may start any operation when it is at top level or inside a callback (arbitrary
     re-entrant scripts); any goroutine may move at any time (arbitrary schedules).
     Ghost fields (never read by the mechanism): `snap`, `n0`, `done0`, `dl` of a publish frame,
-    `unsubDone`, `ended`, `log`, `posted`, `hlog`. -/
+    `unsubDone`, `ended`, `log`, `hlog`. -/
 
 namespace FpgoVerif.C10
 
@@ -97,9 +97,17 @@ structure State where
   mailbox : List (Nat × Nat × Int)   -- posted, not yet run deliveries (pid, sid, v), oldest first
   unsubDone : List Nat               -- ghost
   ended : List PubRec                -- ghost, newest first
-  log : List (Nat × Nat × Int)       -- ghost: OnNext invocations (pid, sid, v), newest first
-  posted : List (Nat × Nat × Int)    -- ghost: Posts to the handler, newest first
+  log : List (Nat × Nat × Int × Bool) -- ghost: every delivery (pid, sid, v, posted to the handler instead of
+                                      --        calling OnNext directly), newest first
   hlog : List (Nat × Nat × Int)      -- ghost: deliveries run by the handler, newest first
+
+/-- ghost: the Posts to the handler, newest first -/
+def State.posted (s : State) : List (Nat × Nat × Int) :=
+  (s.log.filter (fun e => e.2.2.2)).map (fun e => (e.1, e.2.1, e.2.2.1))
+
+/-- ghost: the subscriptions Publish call `p` has delivered to, in order, read off the global log -/
+def dlOf (log : List (Nat × Nat × Int × Bool)) (p : Nat) : List Nat :=
+  ((log.filter (fun e => e.1 = p)).map (fun e => e.2.1)).reverse
 
 def upd {β} (f : Nat → β) (a : Nat) (b : β) : Nat → β := fun x => if x = a then b else f x
 
@@ -110,7 +118,7 @@ def upd {β} (f : Nat → β) (a : Nat) (b : β) : Nat → β := fun x => if x =
 /-- the nil slice: array 0 is the empty array -/
 def init : State :=
   { heap := [[]], subs := ⟨0, 0, 0⟩, nextId := 1, nextPid := 0, subOn := false, stacks := fun _ => [],
-    mailbox := [], unsubDone := [], ended := [], log := [], posted := [], hlog := [] }
+    mailbox := [], unsubDone := [], ended := [], log := [], hlog := [] }
 
 inductive Act
   | subscribe (t : Nat)
@@ -164,9 +172,9 @@ def step (fixed : Bool) (grow : Nat → Nat) (s : State) : Act → Option State
         let f' := { f with k := f.k + 1, dl := f.dl ++ [c] }
         if s.subOn then
           some { s with stacks := upd s.stacks t (.pub f' :: rest),
-                        mailbox := s.mailbox ++ [(f.pid, c, f.val)], posted := (f.pid, c, f.val) :: s.posted }
+                        mailbox := s.mailbox ++ [(f.pid, c, f.val)], log := (f.pid, c, f.val, true) :: s.log }
         else
-          some { s with stacks := upd s.stacks t (.cb :: .pub f' :: rest), log := (f.pid, c, f.val) :: s.log }
+          some { s with stacks := upd s.stacks t (.cb :: .pub f' :: rest), log := (f.pid, c, f.val, false) :: s.log }
       else none
     | _ => none
   | .cbReturn t =>
